@@ -29,7 +29,7 @@ ASSUMPTIONS = [
 ]
 OUTSIDE = ["YAML text rewrites", "fresh process / PYTHONHASHSEED / working directory (process-level, no symbolic formulation)", "mappings with more than 5 keys per level"]
 
-MAPPINGS = {"node0": 2, "node1": 2, "node2": 6, "opts1": 6, "opts2": 2, "dict_in_list": 2, "variables": 6, "parameters": 2, "sweepkeys": 5, "runspace": 4, "rs_context": 2}
+MAPPINGS = {"node0": 2, "node1": 2, "node2": 6, "opts1": 6, "opts2": 2, "dict_in_list": 2, "domain_dict": 2, "variables": 6, "parameters": 2, "sweepkeys": 5, "runspace": 4, "rs_context": 2}
 
 
 def setup_symbolic() -> None:
@@ -65,7 +65,7 @@ def _p1_body(which, V, tvals, perm, model: bool):
     model = bool(ihash.INSTALLED)
     if model:
         ihash.reset()
-    ref_cfg = idcfg.config(V, tvals, {}, run_space=_run_space(V, {}))
+    ref_cfg = idcfg.config(V, tvals, ({"domain_dict": 0} if which == "domain_dict" else {}), run_space=_run_space(V, {}))
     P = {which: perm}
     cfg = idcfg.config(V, tvals, P, run_space=_run_space(V, P))
     a = idcfg.identities(ref_cfg, model=model)
@@ -95,10 +95,16 @@ def _ac_pairs(limit: int):
     out = []
     atoms = ["t", "s", "2", ("*", "t", "s"), ("+", "t", "2"), ("*", "s", "2"), ("-", "t", "s"), ("*", "2", "t")]
     seen = set()
+    trees = [(op, x, y) for op in ("+", "*") for x in atoms for y in atoms]
+    # the same chains under a root that is not a binary operator (call, unary minus, comparison, if-else)
+    small = atoms[:5]
     for op in ("+", "*"):
-        for x in atoms:
-            for y in atoms:
-                t = (op, x, y)
+        for x in small:
+            for y in small:
+                trees += [("abs", (op, x, y)), ("neg", (op, x, y)), ("max", (op, x, y), "2"), ("<", "t", (op, x, y)), ("if", (op, x, y), "t", "s")]
+    for t in trees:
+        if True:
+            if True:
                 for t2 in C12.ac_moves(t):
                     key = (C12.text(t), C12.text(t2))
                     if key in seen or key[0] == key[1]:
